@@ -1,5 +1,5 @@
 (* C16 — proofs: the parser model's tag resolution and directive processing against Spec/TagSpec.v,
-   and the scanner model's percent-decoding against the arithmetic UTF-8 specification. *)
+   and the shapes of the tokens the scanner model produces (percent-decoding: Proofs/TagUtf8.v). *)
 From Coq Require Import List NArith ZArith Bool Lia.
 Import ListNotations.
 Require Import Parser TagSpec.
@@ -739,465 +739,11 @@ Proof.
   - exists 2%N, j. split; [right; reflexivity|exact H].
 Qed.
 
-(* ========================================================================================== *)
-(* Part (d): percent-decoding — the scanner model's scan_uri_escapes against RFC 3629           *)
-(* ========================================================================================== *)
+(* Part (d), percent-decoding (scan_uri_escapes against RFC 3629), lives in Proofs/TagUtf8.v;
+   the text-level scanner theorems in Proofs/TagScanText.v and the pipeline in Proofs/TagPipeline.v. *)
 (* (from here on [Ok]/[Err]/[peek] are the scanner's; the parser's are written Parser.Ok ...)   *)
 Require Import SBase SPrim SDir.
 Open Scope mon_scope.
-
-(* scan_uri_escapes is an anonymous loop applied to the fuel 5 (a sequence has at most 4 bytes); the same
-   loop with a name, so that it can be unfolded one escape at a time *)
-Section UriGo.
-Variable mk : marker.
-Fixpoint uri_go (f : nat) (width : N) (code : N) (first : bool) : @M strin chr :=
-     match f with
-     | O => oof
-     | S f =>
-       look str_ops 3 ;;; c0 <- peek str_ops ;; c <- peekn str_ops 1 ;; nc <- peekn str_ops 2 ;;
-       if negb ((c0 =? 37) && is_hex c && is_hex nc) then fail 50 mk else
-       let byte := as_hex c * 16 + as_hex nc in
-       r <- (if first then
-               if N.land byte 128 =? 0 then ret (1, byte)
-               else if N.land byte 224 =? 192 then ret (2, N.land byte 31)
-               else if N.land byte 240 =? 224 then ret (3, N.land byte 15)
-               else if N.land byte 248 =? 240 then ret (4, N.land byte 7)
-               else fail 51 mk
-             else if negb (N.land byte 192 =? 128) then fail 52 mk
-             else ret (width, code * 64 + N.land byte 63)) ;;
-       let '(w, cd) := r in
-       skip_n_non_blank str_ops 3 ;;;
-       if w - 1 =? 0 then
-         (if (cd <? 55296) || ((57343 <? cd) && (cd <=? 1114111)) then ret cd else fail 53 mk)
-       else uri_go f (w - 1) cd false
-     end.
-End UriGo.
-
-Lemma scan_uri_escapes_go : forall mk, scan_uri_escapes str_ops mk = uri_go mk 5 0 0 true.
-Proof. reflexivity. Qed.
-
-(* the scanner state after consuming n characters that are not blanks or breaks *)
-Definition eat (n : nat) (s : sc strin) : sc strin :=
-  set_lws false (set_mark (adv (N.of_nat n) (sc_mark s))
-    (set_in {| si_chars := skipn n (si_chars (sc_in s)); si_look := Nat.max (si_look (sc_in s)) 3 |} s)).
-
-Lemma go_step : forall mk f width code first s c1 c2 rest,
-  si_chars (sc_in s) = 37 :: c1 :: c2 :: rest -> is_hex c1 = true -> is_hex c2 = true ->
-  uri_go mk (S f) width code first s =
-  let byte := as_hex c1 * 16 + as_hex c2 in
-  match (if first then
-               if N.land byte 128 =? 0 then Some (1, byte)
-               else if N.land byte 224 =? 192 then Some (2, N.land byte 31)
-               else if N.land byte 240 =? 224 then Some (3, N.land byte 15)
-               else if N.land byte 248 =? 240 then Some (4, N.land byte 7)
-               else None
-             else if negb (N.land byte 192 =? 128) then None
-             else Some (width, code * 64 + N.land byte 63)) with
-  | None => SBase.Err (if first then 51 else 52) mk
-  | Some (w, cd) =>
-      if w - 1 =? 0 then
-        (if (cd <? 55296) || ((57343 <? cd) && (cd <=? 1114111)) then SBase.Ok (cd, eat 3 s) else SBase.Err 53 mk)
-      else uri_go mk f (w - 1) cd false (eat 3 s)
-  end.
-Proof.
-  intros mk f width code first s c1 c2 rest HC H1 H2.
-  destruct s as [inp mark toks ss se adj ska sks ind inds fl tp ta lws fms ifms].
-  destruct inp as [chars lk]. cbn [sc_in si_chars] in HC. subst chars.
-  cbn [uri_go].
-  cbv [bind look peek peekn lookahead peek_nth str_ops sc_in set_in upd si_chars si_look nth].
-  rewrite H1, H2. change (37 =? 37) with true. cbv [andb negb].
-  cbv zeta.
-  cbv [skip_n_non_blank in_skip_n skip_n adv_mark modify bind str_ops sc_in set_in upd si_chars si_look ret fail eat].
-  destruct first;
-    repeat match goal with |- context [if ?b then _ else _] => destruct b end; reflexivity.
-Qed.
-
-(* ---- finite facts about bytes, by exhaustive evaluation over 0..255 ---- *)
-Fixpoint below (n : nat) (f : N -> bool) : bool :=
-  match n with O => true | S n => f (N.of_nat n) && below n f end.
-Lemma below_spec : forall n f, below n f = true -> forall x, x < N.of_nat n -> f x = true.
-Proof.
-  induction n as [|n IH]; intros f H x Hx; [lia|].
-  cbn [below] in H. apply andb_true_iff in H. destruct H as [H1 H2].
-  destruct (N.eq_dec x (N.of_nat n)) as [->|Hne]; [exact H1|].
-  apply IH; [exact H2|lia].
-Qed.
-
-Definition in_range (lo hi b : N) : bool := (lo <=? b) && (b <=? hi).
-Definition byte_check (b : N) : bool :=
-  (if b <=? 127 then N.land b 128 =? 0 else negb (N.land b 128 =? 0)) &&
-  (if in_range 192 223 b then (N.land b 224 =? 192) && (N.land b 31 =? b - 192) else negb (N.land b 224 =? 192)) &&
-  (if in_range 224 239 b then (N.land b 240 =? 224) && (N.land b 15 =? b - 224) else negb (N.land b 240 =? 224)) &&
-  (if in_range 240 247 b then (N.land b 248 =? 240) && (N.land b 7 =? b - 240) else negb (N.land b 248 =? 240)) &&
-  (if in_range 128 191 b then (N.land b 192 =? 128) && (N.land b 63 =? b - 128) else negb (N.land b 192 =? 128)).
-Lemma byte_facts : forall b, b < 256 -> byte_check b = true.
-Proof. apply (below_spec 256). vm_compute. reflexivity. Qed.
-
-Ltac range_cases :=
-  unfold in_range in *;
-  repeat match goal with
-         | H : context [?a <=? ?b] |- _ => destruct (N.leb_spec a b); cbn [andb negb] in H
-         end.
-
-Lemma lead1 : forall b, b <= 127 -> (N.land b 128 =? 0) = true.
-Proof.
-  intros b H. pose proof (byte_facts b ltac:(lia)) as F. unfold byte_check in F.
-  apply andb_true_iff in F. destruct F as [F _]. repeat (apply andb_true_iff in F; destruct F as [F _]).
-  destruct (N.leb_spec b 127); [exact F|lia].
-Qed.
-
-Lemma byte_split : forall b, b < 256 ->
-  (if b <=? 127 then N.land b 128 =? 0 else negb (N.land b 128 =? 0)) = true /\
-  (if in_range 192 223 b then (N.land b 224 =? 192) && (N.land b 31 =? b - 192) else negb (N.land b 224 =? 192)) = true /\
-  (if in_range 224 239 b then (N.land b 240 =? 224) && (N.land b 15 =? b - 224) else negb (N.land b 240 =? 224)) = true /\
-  (if in_range 240 247 b then (N.land b 248 =? 240) && (N.land b 7 =? b - 240) else negb (N.land b 248 =? 240)) = true /\
-  (if in_range 128 191 b then (N.land b 192 =? 128) && (N.land b 63 =? b - 128) else negb (N.land b 192 =? 128)) = true.
-Proof.
-  intros b H. pose proof (byte_facts b H) as F. unfold byte_check in F.
-  repeat (apply andb_true_iff in F; destruct F as [F ?]). auto.
-Qed.
-
-Lemma in_range_true : forall lo hi b, lo <= b -> b <= hi -> in_range lo hi b = true.
-Proof. intros. unfold in_range. apply andb_true_iff. split; apply N.leb_le; assumption. Qed.
-Lemma in_range_false : forall lo hi b, b < lo \/ hi < b -> in_range lo hi b = false.
-Proof.
-  intros lo hi b H. unfold in_range. apply andb_false_iff.
-  destruct H; [left|right]; apply N.leb_gt; assumption.
-Qed.
-
-Lemma lead2 : forall b, 192 <= b -> b <= 223 ->
-  (N.land b 128 =? 0) = false /\ (N.land b 224 =? 192) = true /\ N.land b 31 = b - 192.
-Proof.
-  intros b H1 H2. destruct (byte_split b ltac:(lia)) as [F1 [F2 _]].
-  rewrite (proj2 (N.leb_gt b 127)) in F1 by lia. rewrite in_range_true in F2 by assumption.
-  apply andb_true_iff in F2. destruct F2 as [F2 F3]. apply N.eqb_eq in F3.
-  split; [apply negb_true_iff; exact F1|]. split; assumption.
-Qed.
-
-Lemma lead3 : forall b, 224 <= b -> b <= 239 ->
-  (N.land b 128 =? 0) = false /\ (N.land b 224 =? 192) = false /\ (N.land b 240 =? 224) = true /\ N.land b 15 = b - 224.
-Proof.
-  intros b H1 H2. destruct (byte_split b ltac:(lia)) as [F1 [F2 [F3 _]]].
-  rewrite (proj2 (N.leb_gt b 127)) in F1 by lia. rewrite in_range_false in F2 by lia.
-  rewrite in_range_true in F3 by assumption.
-  apply andb_true_iff in F3. destruct F3 as [F3 F4]. apply N.eqb_eq in F4.
-  split; [apply negb_true_iff; exact F1|]. split; [apply negb_true_iff; exact F2|]. split; assumption.
-Qed.
-
-Lemma lead4 : forall b, 240 <= b -> b <= 247 ->
-  (N.land b 128 =? 0) = false /\ (N.land b 224 =? 192) = false /\ (N.land b 240 =? 224) = false
-  /\ (N.land b 248 =? 240) = true /\ N.land b 7 = b - 240.
-Proof.
-  intros b H1 H2. destruct (byte_split b ltac:(lia)) as [F1 [F2 [F3 [F4 _]]]].
-  rewrite (proj2 (N.leb_gt b 127)) in F1 by lia. rewrite in_range_false in F2 by lia.
-  rewrite in_range_false in F3 by lia. rewrite in_range_true in F4 by assumption.
-  apply andb_true_iff in F4. destruct F4 as [F4 F5]. apply N.eqb_eq in F5.
-  split; [apply negb_true_iff; exact F1|]. split; [apply negb_true_iff; exact F2|].
-  split; [apply negb_true_iff; exact F3|]. split; assumption.
-Qed.
-
-Lemma cont_byte : forall b, 128 <= b -> b <= 191 -> (N.land b 192 =? 128) = true /\ N.land b 63 = b - 128.
-Proof.
-  intros b H1 H2. destruct (byte_split b ltac:(lia)) as [_ [_ [_ [_ F]]]].
-  rewrite in_range_true in F by assumption.
-  apply andb_true_iff in F. destruct F as [F F']. apply N.eqb_eq in F'. split; assumption.
-Qed.
-
-(* ---- hexadecimal digits: the specification's reading = the generated char_traits tables ---- *)
-Lemma hex_value_model : forall x d, hex_value x = Some d -> is_hex x = true /\ as_hex x = d /\ d < 16.
-Proof.
-  intros x d H. unfold hex_value in H. unfold is_hex, as_hex.
-  destruct (N.leb_spec 48 x); destruct (N.leb_spec x 57); cbn [andb orb] in *;
-  destruct (N.leb_spec 65 x); destruct (N.leb_spec x 70); cbn [andb orb] in *;
-  destruct (N.leb_spec 97 x); destruct (N.leb_spec x 102); cbn [andb orb] in *;
-  try discriminate; inversion H; subst; repeat split; try reflexivity; lia.
-Qed.
-
-(* [es] spells the bytes [bs] as escapes %XY (hexadecimal digits of either case) *)
-Inductive spells : list N -> list N -> Prop :=
-| spells_nil : spells [] []
-| spells_cons : forall x y hi lo es bs,
-    hex_value x = Some hi -> hex_value y = Some lo -> spells es bs ->
-    spells (37 :: x :: y :: es) ((hi * 16 + lo) :: bs).
-
-Fixpoint eats (n : nat) (s : sc strin) : sc strin := match n with O => s | S n => eats n (eat 3 s) end.
-
-Lemma eat_chars : forall s a b c r, si_chars (sc_in s) = a :: b :: c :: r -> si_chars (sc_in (eat 3 s)) = r.
-Proof. intros s a b c r H. cbn [eat set_lws set_flags set_mark set_in upd sc_in si_chars]. rewrite H. reflexivity. Qed.
-
-Lemma skipn_add : forall {A} b a (l : list A), skipn a (skipn b l) = skipn (b + a) l.
-Proof.
-  induction b as [|b IH]; intros a l; [reflexivity|].
-  destruct l as [|x l]; cbn [skipn plus]; [destruct a; reflexivity|apply IH].
-Qed.
-
-Lemma eats_chars : forall n s, si_chars (sc_in (eats n s)) = skipn (3 * n) (si_chars (sc_in s)).
-Proof.
-  induction n as [|n IH]; intros s; [reflexivity|].
-  cbn [eats]. rewrite IH. cbn [eat set_lws set_flags set_mark set_in upd sc_in si_chars].
-  rewrite skipn_add. f_equal. lia.
-Qed.
-
-Lemma eats_mark : forall n s, sc_mark (eats n s) = adv (N.of_nat (3 * n)) (sc_mark s).
-Proof.
-  induction n as [|n IH]; intros s.
-  - cbn [eats]. unfold adv. destruct (sc_mark s) as [i l c]. cbn. rewrite !N.add_0_r. reflexivity.
-  - cbn [eats]. rewrite IH. cbn [eat set_lws set_flags set_mark set_in upd sc_mark]. unfold adv. cbn [m_index m_line m_col].
-    f_equal; lia.
-Qed.
-
-Lemma eats_consumed : forall n s,
-  si_chars (sc_in (eats n s)) = skipn (3 * n) (si_chars (sc_in s)) /\
-  sc_mark (eats n s) = adv (N.of_nat (3 * n)) (sc_mark s).
-Proof. intros n s. exact (conj (eats_chars n s) (eats_mark n s)). Qed.
-
-(* one escape consumed: rewriting step for the proofs below *)
-Ltac step_escape HC :=
-  match goal with
-  | |- context [uri_go ?mk (S ?f) ?w ?cd ?fst ?s] =>
-      erewrite (go_step mk f w cd fst s); [|exact HC|eassumption|eassumption]
-  end.
-
-(* THE decoding theorem: whenever the RFC 3629 decoder of the specification accepts a byte sequence,
-   the scanner model, reading those bytes written as escapes (in either case of the hex digits, followed by
-   anything), returns the same character and has consumed exactly the 3n characters of the escapes. *)
-Theorem scan_uri_escapes_decodes : forall bs c es rest mk s,
-  utf8_decode bs = Some c -> spells es bs -> si_chars (sc_in s) = es ++ rest ->
-  scan_uri_escapes str_ops mk s = SBase.Ok (c, eats (length bs) s).
-Proof.
-  intros bs c es rest mk s HD HS HC. rewrite scan_uri_escapes_go.
-  destruct bs as [|b1 [|b2 [|b3 [|b4 [|b5 bs]]]]]; cbn [utf8_decode] in HD; try discriminate.
-  - (* one byte *)
-    inversion HS as [|x y hi lo es' bs' Hx Hy HS' E1 E2]; subst. inversion HS'; subst.
-    destruct (hex_value_model _ _ Hx) as [Ix [Ax Bx]]. destruct (hex_value_model _ _ Hy) as [Iy [Ay By]].
-    cbn [app] in HC.
-    erewrite (go_step mk 4 0 0 true s); [|exact HC|exact Ix|exact Iy]. cbv zeta. rewrite Ax, Ay.
-    destruct (N.leb_spec (hi * 16 + lo) 127) as [Hle|]; [|discriminate]. inversion HD; subst c.
-    rewrite (lead1 _ Hle). change (1 - 1 =? 0) with true. cbv iota.
-    rewrite (proj2 (N.ltb_lt (hi * 16 + lo) 55296)) by lia. reflexivity.
-  - (* two bytes *)
-    inversion HS as [|x y hi lo es' bs' Hx Hy HS' E1 E2]; subst.
-    inversion HS' as [|x2 y2 hi2 lo2 es2 bs2 Hx2 Hy2 HS2 E3 E4]; subst. inversion HS2; subst.
-    destruct (hex_value_model _ _ Hx) as [Ix [Ax Bx]]. destruct (hex_value_model _ _ Hy) as [Iy [Ay By]].
-    destruct (hex_value_model _ _ Hx2) as [Ix2 [Ax2 Bx2]]. destruct (hex_value_model _ _ Hy2) as [Iy2 [Ay2 By2]].
-    cbn [app] in HC.
-    set (b1 := hi * 16 + lo) in *. set (b2 := hi2 * 16 + lo2) in *.
-    unfold continuation in HD.
-    destruct (N.leb_spec 194 b1); [|discriminate]. destruct (N.leb_spec b1 223); [|discriminate].
-    destruct (N.leb_spec 128 b2); [|discriminate]. destruct (N.leb_spec b2 191); [|discriminate].
-    cbn [andb] in HD. inversion HD; subst c.
-    destruct (lead2 b1 ltac:(lia) ltac:(lia)) as [L1 [L2 L3]]. destruct (cont_byte b2 ltac:(lia) ltac:(lia)) as [C1 C2].
-    erewrite (go_step mk 4 0 0 true s); [|exact HC|exact Ix|exact Iy]. cbv zeta. rewrite Ax, Ay. fold b1.
-    rewrite L1, L2, L3. change (2 - 1 =? 0) with false. cbv iota.
-    erewrite (go_step mk 3 (2 - 1) (b1 - 192) false (eat 3 s)); [|eapply eat_chars; exact HC|exact Ix2|exact Iy2].
-    cbv zeta. rewrite Ax2, Ay2. fold b2. rewrite C1, C2. cbn [negb]. change (2 - 1 - 1 =? 0) with true. cbv iota.
-    rewrite (proj2 (N.ltb_lt ((b1 - 192) * 64 + (b2 - 128)) 55296)) by lia. reflexivity.
-  - (* three bytes *)
-    inversion HS as [|x y hi lo es' bs' Hx Hy HS' E1 E2]; subst.
-    inversion HS' as [|x2 y2 hi2 lo2 es2 bs2 Hx2 Hy2 HS2 E3 E4]; subst.
-    inversion HS2 as [|x3 y3 hi3 lo3 es3 bs3 Hx3 Hy3 HS3 E5 E6]; subst. inversion HS3; subst.
-    destruct (hex_value_model _ _ Hx) as [Ix [Ax Bx]]. destruct (hex_value_model _ _ Hy) as [Iy [Ay By]].
-    destruct (hex_value_model _ _ Hx2) as [Ix2 [Ax2 Bx2]]. destruct (hex_value_model _ _ Hy2) as [Iy2 [Ay2 By2]].
-    destruct (hex_value_model _ _ Hx3) as [Ix3 [Ax3 Bx3]]. destruct (hex_value_model _ _ Hy3) as [Iy3 [Ay3 By3]].
-    cbn [app] in HC.
-    set (b1 := hi * 16 + lo) in *. set (b2 := hi2 * 16 + lo2) in *. set (b3 := hi3 * 16 + lo3) in *.
-    unfold continuation in HD.
-    destruct (N.leb_spec 224 b1); [|discriminate]. destruct (N.leb_spec b1 239); [|discriminate].
-    destruct (N.leb_spec 128 b2); [|discriminate]. destruct (N.leb_spec b2 191); [|discriminate].
-    destruct (N.leb_spec 128 b3); [|discriminate]. destruct (N.leb_spec b3 191); [|discriminate].
-    cbn [andb] in HD. cbv zeta in HD.
-    destruct (N.leb_spec 2048 ((b1 - 224) * 4096 + (b2 - 128) * 64 + (b3 - 128))); [|discriminate].
-    cbn [andb] in HD.
-    destruct (is_scalar_value ((b1 - 224) * 4096 + (b2 - 128) * 64 + (b3 - 128))) eqn:HV; [|discriminate].
-    inversion HD; subst c.
-    destruct (lead3 b1 ltac:(lia) ltac:(lia)) as [L1 [L2 [L3 L4]]].
-    destruct (cont_byte b2 ltac:(lia) ltac:(lia)) as [C1 C2]. destruct (cont_byte b3 ltac:(lia) ltac:(lia)) as [D1 D2].
-    erewrite (go_step mk 4 0 0 true s); [|exact HC|exact Ix|exact Iy]. cbv zeta. rewrite Ax, Ay. fold b1.
-    rewrite L1, L2, L3, L4. change (3 - 1 =? 0) with false. cbv iota.
-    erewrite (go_step mk 3 (3 - 1) (b1 - 224) false (eat 3 s)); [|eapply eat_chars; exact HC|exact Ix2|exact Iy2].
-    cbv zeta. rewrite Ax2, Ay2. fold b2. rewrite C1, C2. cbn [negb]. change (3 - 1 - 1 =? 0) with false. cbv iota.
-    erewrite (go_step mk 2 (3 - 1 - 1) _ false (eat 3 (eat 3 s)));
-      [|eapply eat_chars; eapply eat_chars; exact HC|exact Ix3|exact Iy3].
-    cbv zeta. rewrite Ax3, Ay3. fold b3. rewrite D1, D2. cbn [negb]. change (3 - 1 - 1 - 1 =? 0) with true. cbv iota.
-    replace (((b1 - 224) * 64 + (b2 - 128)) * 64 + (b3 - 128)) with ((b1 - 224) * 4096 + (b2 - 128) * 64 + (b3 - 128)) by lia.
-    unfold is_scalar_value in HV. rewrite HV. reflexivity.
-  - (* four bytes *)
-    inversion HS as [|x y hi lo es' bs' Hx Hy HS' E1 E2]; subst.
-    inversion HS' as [|x2 y2 hi2 lo2 es2 bs2 Hx2 Hy2 HS2 E3 E4]; subst.
-    inversion HS2 as [|x3 y3 hi3 lo3 es3 bs3 Hx3 Hy3 HS3 E5 E6]; subst.
-    inversion HS3 as [|x4 y4 hi4 lo4 es4 bs4 Hx4 Hy4 HS4 E7 E8]; subst. inversion HS4; subst.
-    destruct (hex_value_model _ _ Hx) as [Ix [Ax Bx]]. destruct (hex_value_model _ _ Hy) as [Iy [Ay By]].
-    destruct (hex_value_model _ _ Hx2) as [Ix2 [Ax2 Bx2]]. destruct (hex_value_model _ _ Hy2) as [Iy2 [Ay2 By2]].
-    destruct (hex_value_model _ _ Hx3) as [Ix3 [Ax3 Bx3]]. destruct (hex_value_model _ _ Hy3) as [Iy3 [Ay3 By3]].
-    destruct (hex_value_model _ _ Hx4) as [Ix4 [Ax4 Bx4]]. destruct (hex_value_model _ _ Hy4) as [Iy4 [Ay4 By4]].
-    cbn [app] in HC.
-    set (b1 := hi * 16 + lo) in *. set (b2 := hi2 * 16 + lo2) in *. set (b3 := hi3 * 16 + lo3) in *.
-    set (b4 := hi4 * 16 + lo4) in *.
-    unfold continuation in HD.
-    destruct (N.leb_spec 240 b1); [|discriminate]. destruct (N.leb_spec b1 244); [|discriminate].
-    destruct (N.leb_spec 128 b2); [|discriminate]. destruct (N.leb_spec b2 191); [|discriminate].
-    destruct (N.leb_spec 128 b3); [|discriminate]. destruct (N.leb_spec b3 191); [|discriminate].
-    destruct (N.leb_spec 128 b4); [|discriminate]. destruct (N.leb_spec b4 191); [|discriminate].
-    cbn [andb] in HD. cbv zeta in HD.
-    set (cc := (b1 - 240) * 262144 + (b2 - 128) * 4096 + (b3 - 128) * 64 + (b4 - 128)) in *.
-    destruct (N.leb_spec 65536 cc); [|discriminate]. destruct (N.leb_spec cc 1114111); [|discriminate].
-    cbn [andb] in HD. inversion HD; subst c.
-    destruct (lead4 b1 ltac:(lia) ltac:(lia)) as [L1 [L2 [L3 [L4 L5]]]].
-    destruct (cont_byte b2 ltac:(lia) ltac:(lia)) as [C1 C2]. destruct (cont_byte b3 ltac:(lia) ltac:(lia)) as [D1 D2].
-    destruct (cont_byte b4 ltac:(lia) ltac:(lia)) as [E1 E2].
-    erewrite (go_step mk 4 0 0 true s); [|exact HC|exact Ix|exact Iy]. cbv zeta. rewrite Ax, Ay. fold b1.
-    rewrite L1, L2, L3, L4, L5. change (4 - 1 =? 0) with false. cbv iota.
-    erewrite (go_step mk 3 (4 - 1) (b1 - 240) false (eat 3 s)); [|eapply eat_chars; exact HC|exact Ix2|exact Iy2].
-    cbv zeta. rewrite Ax2, Ay2. fold b2. rewrite C1, C2. cbn [negb]. change (4 - 1 - 1 =? 0) with false. cbv iota.
-    erewrite (go_step mk 2 (4 - 1 - 1) _ false (eat 3 (eat 3 s)));
-      [|eapply eat_chars; eapply eat_chars; exact HC|exact Ix3|exact Iy3].
-    cbv zeta. rewrite Ax3, Ay3. fold b3. rewrite D1, D2. cbn [negb]. change (4 - 1 - 1 - 1 =? 0) with false. cbv iota.
-    erewrite (go_step mk 1 (4 - 1 - 1 - 1) _ false (eat 3 (eat 3 (eat 3 s))));
-      [|eapply eat_chars; eapply eat_chars; eapply eat_chars; exact HC|exact Ix4|exact Iy4].
-    cbv zeta. rewrite Ax4, Ay4. fold b4. rewrite E1, E2. cbn [negb]. change (4 - 1 - 1 - 1 - 1 =? 0) with true. cbv iota.
-    replace ((((b1 - 240) * 64 + (b2 - 128)) * 64 + (b3 - 128)) * 64 + (b4 - 128)) with cc by (unfold cc; lia).
-    rewrite (proj2 (N.ltb_ge cc 55296)) by lia. rewrite (proj2 (N.ltb_lt 57343 cc)) by lia.
-    rewrite (proj2 (N.leb_le cc 1114111)) by lia. reflexivity.
-Qed.
-
-(* ---- the encoder of the specification: every scalar value has an encoding the decoder accepts ---- *)
-Ltac Zify.zify_post_hook ::= Z.to_euclidean_division_equations.
-
-Lemma utf8_round_trip : forall c, is_scalar_value c = true -> utf8_decode (utf8_encode c) = Some c.
-Proof.
-  intros c HV. unfold is_scalar_value in HV. unfold utf8_encode.
-  destruct (N.ltb_spec c 128) as [H1|H1].
-  - cbn [utf8_decode]. rewrite (proj2 (N.leb_le c 127)) by lia. reflexivity.
-  - destruct (N.ltb_spec c 2048) as [H2|H2].
-    + cbn [utf8_decode]. unfold continuation.
-      rewrite (proj2 (N.leb_le 194 (192 + c / 64))) by lia.
-      rewrite (proj2 (N.leb_le (192 + c / 64) 223)) by lia.
-      rewrite (proj2 (N.leb_le 128 (128 + c mod 64))) by lia.
-      rewrite (proj2 (N.leb_le (128 + c mod 64) 191)) by lia.
-      cbn [andb]. f_equal. lia.
-    + destruct (N.ltb_spec c 65536) as [H3|H3].
-      * cbn [utf8_decode]. unfold continuation.
-        rewrite (proj2 (N.leb_le 224 (224 + c / 4096))) by lia.
-        rewrite (proj2 (N.leb_le (224 + c / 4096) 239)) by lia.
-        rewrite (proj2 (N.leb_le 128 (128 + (c / 64) mod 64))) by lia.
-        rewrite (proj2 (N.leb_le (128 + (c / 64) mod 64) 191)) by lia.
-        rewrite (proj2 (N.leb_le 128 (128 + c mod 64))) by lia.
-        rewrite (proj2 (N.leb_le (128 + c mod 64) 191)) by lia.
-        cbn [andb]. cbv zeta.
-        assert (E : (224 + c / 4096 - 224) * 4096 + (128 + (c / 64) mod 64 - 128) * 64 + (128 + c mod 64 - 128) = c) by lia.
-        rewrite E. rewrite (proj2 (N.leb_le 2048 c)) by lia. cbn [andb]. unfold is_scalar_value. rewrite HV. reflexivity.
-      * assert (H4 : c <= 1114111).
-        { destruct (N.ltb_spec c 55296); [lia|]. cbn [orb] in HV. apply andb_true_iff in HV. destruct HV as [_ HV].
-          apply N.leb_le in HV. exact HV. }
-        cbn [utf8_decode]. unfold continuation.
-        rewrite (proj2 (N.leb_le 240 (240 + c / 262144))) by lia.
-        rewrite (proj2 (N.leb_le (240 + c / 262144) 244)) by lia.
-        rewrite (proj2 (N.leb_le 128 (128 + (c / 4096) mod 64))) by lia.
-        rewrite (proj2 (N.leb_le (128 + (c / 4096) mod 64) 191)) by lia.
-        rewrite (proj2 (N.leb_le 128 (128 + (c / 64) mod 64))) by lia.
-        rewrite (proj2 (N.leb_le (128 + (c / 64) mod 64) 191)) by lia.
-        rewrite (proj2 (N.leb_le 128 (128 + c mod 64))) by lia.
-        rewrite (proj2 (N.leb_le (128 + c mod 64) 191)) by lia.
-        cbn [andb]. cbv zeta.
-        assert (E : (240 + c / 262144 - 240) * 262144 + (128 + (c / 4096) mod 64 - 128) * 4096
-                    + (128 + (c / 64) mod 64 - 128) * 64 + (128 + c mod 64 - 128) = c) by lia.
-        rewrite E. rewrite (proj2 (N.leb_le 65536 c)) by lia. rewrite (proj2 (N.leb_le c 1114111)) by lia. reflexivity.
-Qed.
-
-Lemma utf8_encode_bytes : forall c, c <= 1114111 -> Forall (fun b => b < 256) (utf8_encode c).
-Proof.
-  intros c H. unfold utf8_encode.
-  destruct (N.ltb_spec c 128); [repeat constructor; lia|].
-  destruct (N.ltb_spec c 2048); [repeat constructor; lia|].
-  destruct (N.ltb_spec c 65536); repeat constructor; lia.
-Qed.
-
-Lemma hex_digit_value : forall d, d < 16 -> hex_value (hex_digit d) = Some d.
-Proof.
-  intros d H. unfold hex_digit, hex_value.
-  destruct (N.ltb_spec d 10).
-  - rewrite (proj2 (N.leb_le 48 (48 + d))) by lia. rewrite (proj2 (N.leb_le (48 + d) 57)) by lia.
-    cbn [andb]. f_equal. lia.
-  - rewrite (proj2 (N.leb_le 48 (55 + d))) by lia. rewrite (proj2 (N.leb_gt (55 + d) 57)) by lia.
-    rewrite (proj2 (N.leb_le 65 (55 + d))) by lia. rewrite (proj2 (N.leb_le (55 + d) 70)) by lia.
-    cbn [andb]. f_equal. lia.
-Qed.
-
-Lemma spells_escape_bytes : forall bs, Forall (fun b => b < 256) bs -> spells (flat_map escape_byte bs) bs.
-Proof.
-  induction bs as [|b bs IH]; intros H; [constructor|].
-  inversion H as [|? ? Hb H']; subst. cbn [flat_map escape_byte app].
-  replace b with ((b / 16) * 16 + b mod 16) at 3 by lia.
-  apply spells_cons; [apply hex_digit_value; lia|apply hex_digit_value; lia|apply IH; exact H'].
-Qed.
-
-Lemma is_scalar_le : forall c, is_scalar_value c = true -> c <= 1114111.
-Proof.
-  intros c HV. unfold is_scalar_value in HV. destruct (N.ltb_spec c 55296); [lia|].
-  cbn [orb] in HV. apply andb_true_iff in HV. destruct HV as [_ HV]. apply N.leb_le in HV. exact HV.
-Qed.
-
-(* For EVERY Unicode scalar value: its percent-encoded UTF-8 form is decoded back to it. *)
-Theorem scan_uri_escapes_round_trip : forall c rest mk s,
-  is_scalar_value c = true -> si_chars (sc_in s) = percent_encode c ++ rest ->
-  scan_uri_escapes str_ops mk s = SBase.Ok (c, eats (length (utf8_encode c)) s).
-Proof.
-  intros c rest mk s HV HC.
-  eapply scan_uri_escapes_decodes; [apply utf8_round_trip; exact HV| |exact HC].
-  apply spells_escape_bytes. apply utf8_encode_bytes. apply is_scalar_le. exact HV.
-Qed.
-
-(* ---- the text-level decoder of the specification reads escapes the way [spells] says ---- *)
-Lemma take_escapes_spells : forall n l bs r,
-  take_escapes n l = Some (bs, r) -> exists es, l = es ++ r /\ spells es bs /\ length bs = n.
-Proof.
-  induction n as [|n IH]; intros l bs r H; cbn [take_escapes] in H.
-  - inversion H; subst. exists []. repeat split. constructor.
-  - destruct (take_escape l) as [[b r1]|] eqn:E1; [|discriminate].
-    destruct (take_escapes n r1) as [[bs1 r2]|] eqn:E2; [|discriminate]. inversion H; subst.
-    destruct (IH _ _ _ E2) as [es [-> [HS HL]]].
-    unfold take_escape in E1. destruct l as [|p [|x [|y l']]]; try discriminate.
-    destruct (N.eqb_spec p percent); [|discriminate]. subst p.
-    destruct (hex_value x) as [hi|] eqn:Hx; [|discriminate]. destruct (hex_value y) as [lo|] eqn:Hy; [|discriminate].
-    inversion E1; subst. exists (37 :: x :: y :: es). split; [reflexivity|]. split; [|cbn [length]; congruence].
-    apply spells_cons; assumption.
-Qed.
-
-Theorem scan_uri_escapes_meets_spec : forall l c r mk s,
-  take_escaped_char l = Some (c, r) -> si_chars (sc_in s) = l ->
-  exists s', scan_uri_escapes str_ops mk s = SBase.Ok (c, s') /\ si_chars (sc_in s') = r
-             /\ exists n, sc_mark s' = adv (N.of_nat (3 * n)) (sc_mark s) /\ (length l = 3 * n + length r)%nat.
-Proof.
-  intros l c r mk s H HC. unfold take_escaped_char in H.
-  destruct (take_escape l) as [[b r1]|] eqn:E1; [|discriminate].
-  destruct (sequence_length b) as [[|n]|]; try discriminate.
-  destruct (take_escapes n r1) as [[bs r2]|] eqn:E2; [|discriminate].
-  destruct (utf8_decode (b :: bs)) as [c'|] eqn:ED; [|discriminate]. inversion H; subst c' r2.
-  assert (E3 : take_escapes (S n) l = Some (b :: bs, r)) by (cbn [take_escapes]; rewrite E1, E2; reflexivity).
-  destruct (take_escapes_spells _ _ _ _ E3) as [es [-> [HS HL]]].
-  exists (eats (length (b :: bs)) s). split; [eapply scan_uri_escapes_decodes; eassumption|].
-  rewrite eats_chars, HC. split.
-  - assert (HLs : forall es bs, spells es bs -> length es = (3 * length bs)%nat).
-    { intros es0 bs0 H0. induction H0; cbn [length]; lia. }
-    rewrite <- (HLs _ _ HS). rewrite skipn_app, skipn_all, Nat.sub_diag. reflexivity.
-  - exists (length (b :: bs)). split; [apply eats_mark|].
-    assert (HLs : forall es bs, spells es bs -> length es = (3 * length bs)%nat).
-    { intros es0 bs0 H0. induction H0; cbn [length]; lia. }
-    rewrite app_length, (HLs _ _ HS). reflexivity.
-Qed.
-
-(* ---- what the strict decoder rejects but the model (like the code) accepts: non-shortest forms ---- *)
-Definition probe_state (l : list N) : sc strin := init_sc {| si_chars := l; si_look := 0 |}.
-Definition model_decodes (l : list N) : option N :=
-  match scan_uri_escapes str_ops mk0 (probe_state l) with SBase.Ok (c, _) => Some c | _ => None end.
-
-Lemma overlong_accepted_by_model :
-  exists bs es c, utf8_decode bs = None /\ spells es bs /\ model_decodes es = Some c.
-Proof.
-  exists [192; 175], [37; 67; 48; 37; 65; 70], 47. split; [reflexivity|]. split; [|vm_compute; reflexivity].
-  apply (spells_cons 67 48 12 0); [reflexivity|reflexivity|].
-  apply (spells_cons 65 70 10 15); [reflexivity|reflexivity|constructor].
-Qed.
 
 (* ========================================================================================== *)
 (* Part (e): the hypotheses of parts (a) and (b) hold for what the scanner model produces         *)
